@@ -145,12 +145,16 @@ fn round(seed_rng: &mut Rng, round_no: u64) -> Value {
                     }
                     4 => {
                         let t = [0u64, 1, 50][trng.below(3) as usize];
+                        set_current_call_timeout(Some(Duration::from_millis(t)));
                         let r = res(emit_batcher::sync::blocking_send(&*sender, item, Duration::from_millis(t)));
+                        set_current_call_timeout(None);
                         rec.log(json!({"ev": "SendRet", "item": item, "res": r}));
                     }
                     5 => {
                         // the tokio-aware variant from a plain thread
+                        set_current_call_timeout(Some(Duration::from_millis(20)));
                         let r = res(emit_batcher::tokio::blocking_send(&*sender, item, Duration::from_millis(20)));
+                        set_current_call_timeout(None);
                         rec.log(json!({"ev": "SendRet", "item": item, "res": r}));
                     }
                     6 => {
